@@ -3,6 +3,7 @@ CONSTANTS
   Alphabet = {1,2}
   MaxLen = 3
   BruteLen = 3
+  GapVals <- MCGapNeg
   FreeGaps = TRUE
 INIT Init
 NEXT Next
